@@ -313,7 +313,7 @@ def run(ck):
             expect.append(exp)
             sigs.append(sig)
             names.append(name)
-        n = 150 if quick else 1500
+        n = 100 if quick else 1500
         for i in range(n):
             p = U.gen_program(ck.rng)
             progs.append(p)
